@@ -90,6 +90,15 @@ func detWorkload(t *sim.Tape) (ops []detOp, desc string) {
 			g, err := type1.Read(bytes.NewReader(seacFile))
 			return dump.Err(err) + " " + dump.Font(g)
 		}})
+		ops = append(ops, detOp{"type1.Read(seac font) then Font.Write", func() string {
+			g, err := type1.Read(bytes.NewReader(seacFile))
+			if err != nil {
+				return dump.Err(err)
+			}
+			var buf bytes.Buffer
+			err = g.Write(&buf, nil)
+			return dump.Err(err) + " " + buf.String()
+		}})
 	}
 	odd := gen.GenCMapMisuse(t)
 	ops = append(ops, detOp{"ReadCMap(misused operators)", func() string {
